@@ -356,6 +356,11 @@ static ASMJIT_FAVOR_SIZE Error validate(InstDB::Mode mode, const BaseInst& inst,
               return make_error(Error::kInvalidPhysId);
             }
 
+            // The base register must exist in the register file of the target mode (no [r9d] in 32-bit mode).
+            if (ASMJIT_UNLIKELY(Support::bit_test(vd->allowed_reg_mask[size_t(base_type)], base_id) == 0)) {
+              return make_error(Error::kInvalidPhysId);
+            }
+
             // Physical base id.
             reg_mask = Support::bit_mask<RegMask>(base_id);
             combined_reg_mask |= reg_mask;
@@ -433,6 +438,11 @@ static ASMJIT_FAVOR_SIZE Error validate(InstDB::Mode mode, const BaseInst& inst,
           uint32_t index_id = m.index_id();
           if (index_id < Operand::kVirtIdMin) {
             if (ASMJIT_UNLIKELY(index_id >= 32)) {
+              return make_error(Error::kInvalidPhysId);
+            }
+
+            // The index register must exist in the register file of the target mode.
+            if (ASMJIT_UNLIKELY(Support::bit_test(vd->allowed_reg_mask[size_t(index_type)], index_id) == 0)) {
               return make_error(Error::kInvalidPhysId);
             }
 
